@@ -5,12 +5,12 @@
   Encodings (Driver/Wire.lean): coordinates `[x,y;x,y;…]` in micro-units, id lists
   `[0,2]`, qubit ids `[a,b]` or `-`, mappings `[a:2,b:0]`, weights as exact rationals.
 
-    layout  <coords> <rawDistinct>                  → ok dim=<d> sorted=<coords> order=<ids>
+    layout  <coords>                                → ok dim=<d> sorted=<coords> order=<ids>
     eq      <coords> <coords>                       → ok <0|1>
     defreg  <coords> <trapIds> <qids|->             → ok ids=<qids> pos=<coords> traps=<ids>
     lookup  <coords> <coords>                       → ok <ids>
     mappable <coords> <declared> <mapping>          → ok ids=… pos=… traps=…
-    wmap    <coords> <weights> <rawDistinct> <positions>
+    wmap    <coords> <weights> <positions>
                                                     → ok sc=<coords> sw=<rats> qw=<rats>
     weq     <coords> <weights> <coords> <weights>   → ok <0|1>
     ldet    <coords> <id:w,…>                       → ok pos=<coords> w=<rats>
@@ -71,56 +71,54 @@ def withRes {α} (r : Res α) (f : α → String) : String :=
 
 def handle (toks : List String) : Option String :=
   match toks with
-  | ["layout", cs, rd] => do
+  | ["layout", cs] => do
     let cs ← parseCoords? cs
-    let rd ← Wire.parseBool? rd
-    pure <| withRes (mkLayout cs rd) fun L =>
+    pure <| withRes (mkLayout cs) fun L =>
       s!"ok dim={L.dim} sorted={showCoords L.sorted} order={showNats (sortingOrder L.coords)}"
   | ["eq", a, b] => do
     let a ← parseCoords? a
     let b ← parseCoords? b
-    pure <| withRes (mkLayout a true) fun La => withRes (mkLayout b true) fun Lb =>
+    pure <| withRes (mkLayout a) fun La => withRes (mkLayout b) fun Lb =>
       "ok " ++ (if La.eqv Lb then "1" else "0")
   | ["defreg", cs, ids, qids] => do
     let cs ← parseCoords? cs
     let ids ← parseNats? ids
     let qids ← parseOptIds? qids
-    pure <| withRes (mkLayout cs true) fun L => withRes (defineRegister L ids qids) showReg
+    pure <| withRes (mkLayout cs) fun L => withRes (defineRegister L ids qids) showReg
   | ["lookup", cs, qs] => do
     let cs ← parseCoords? cs
     let qs ← parseCoords? qs
-    pure <| withRes (mkLayout cs true) fun L => withRes (trapsFromCoords L qs) fun is =>
+    pure <| withRes (mkLayout cs) fun L => withRes (trapsFromCoords L qs) fun is =>
       "ok " ++ showNats is
   | ["mappable", cs, declared, mapping] => do
     let cs ← parseCoords? cs
     let declared ← parseIds? declared
     let mapping ← parsePairs? some Wire.parseNat? mapping
-    pure <| withRes (mkLayout cs true) fun L => withRes (mkMappable L declared) fun M =>
+    pure <| withRes (mkLayout cs) fun L => withRes (mkMappable L declared) fun M =>
       withRes (buildRegister M mapping) showReg
-  | ["wmap", cs, ws, rd, ps] => do
+  | ["wmap", cs, ws, ps] => do
     let cs ← parseCoords? cs
     let ws ← parseRats? ws
-    let rd ← Wire.parseBool? rd
     let ps ← parseCoords? ps
-    pure <| withRes (mkWeightMap cs ws rd) fun m =>
+    pure <| withRes (mkWeightMap cs ws) fun m =>
       s!"ok sc={showCoords m.sortedCoords} sw={showRats m.sortedWeights} qw={showRats (ps.map m.weightOf)}"
   | ["weq", ca, wa, cb, wb] => do
     let ca ← parseCoords? ca
     let wa ← parseRats? wa
     let cb ← parseCoords? cb
     let wb ← parseRats? wb
-    pure <| withRes (mkWeightMap ca wa true) fun ma => withRes (mkWeightMap cb wb true) fun mb =>
+    pure <| withRes (mkWeightMap ca wa) fun ma => withRes (mkWeightMap cb wb) fun mb =>
       "ok " ++ (if ma.key == mb.key then "1" else "0")
   | ["ldet", cs, ws] => do
     let cs ← parseCoords? cs
     let ws ← parsePairs? Wire.parseNat? Wire.parseRat? ws
-    pure <| withRes (mkLayout cs true) fun L => withRes (layoutDetuningMap L ws) showWM
+    pure <| withRes (mkLayout cs) fun L => withRes (layoutDetuningMap L ws) showWM
   | ["rdet", cs, ids, qids, ws] => do
     let cs ← parseCoords? cs
     let ids ← parseNats? ids
     let qids ← parseOptIds? qids
     let ws ← parsePairs? some Wire.parseRat? ws
-    pure <| withRes (mkLayout cs true) fun L => withRes (defineRegister L ids qids) fun r =>
+    pure <| withRes (mkLayout cs) fun L => withRes (defineRegister L ids qids) fun r =>
       withRes (regDetuningMap r ws) showWM
   | _ => none
 
